@@ -10,7 +10,7 @@ NOTE_COMMON = ('Trusted: z3 5.1.0, the symx value classes/numpy facade (validate
 
 CHECKS = {
  'C02': dict(
-   text='Partial (assembly, kernel formula, Gauss exactness; the quadrature-accuracy clause is outside). The real matrix fill runs on concrete catalogue geometries (2x/3x segment counts, free space and ground, junctions of every end combination, tapered wire, arc, helix, leaning grounded wires) with every numerical integral replaced by an unknown complex number identified only by what the integral depends on; for every pair of pulses at least 2.5 segments apart z3 decides for ALL values of those unknowns (given additivity of an integral over its halves) that the entry is the published MININEC-3 combination written from pulse geometry alone, incl. the image term and its omission for pulses on the ground plane. A structural difference is replayed on the real code against adaptive quadrature with the 1e-4 tolerance of the property. The kernel clause evaluates the element under test alone and in a batch with a wire of the other radius class. The switches of the fill shortcut in the code itself run on ARBITRARY segment directions and lengths: a grounded pulse whose direction has any horizontal component is never treated as vertical, and "same direction" / "same length" is only answered for equal segments (one-sided; candidates replayed at the level of the sentence of the property).',
+   text='Partial (assembly, kernel formula, Gauss exactness; the quadrature-accuracy clause is outside). The real matrix fill runs on concrete catalogue geometries (2x/3x segment counts, free space and ground, junctions of every end combination, tapered wire, arc, helix, leaning grounded wires) with every numerical integral replaced by an unknown complex number identified only by what the integral depends on; for every pair of pulses at least 2.5 segments apart z3 decides for ALL values of those unknowns (given additivity of an integral over its halves) that the entry is the published MININEC-3 combination written from pulse geometry alone, incl. the image term and its omission for pulses on the ground plane. A structural difference is replayed on the real code against adaptive quadrature with the 1e-4 tolerance of the property. Members are also filled twice at the same frequency and at a second frequency on the other side of the small-radius limit. The kernel clause evaluates the element under test alone and in a batch with a wire of the other radius class. The switches of the fill shortcut in the code itself run on ARBITRARY segment directions and lengths: a grounded pulse whose direction has any horizontal component is never treated as vertical, and "same direction" / "same length" is only answered for equal segments (one-sided; candidates replayed at the level of the sentence of the property).',
    design='DESIGN.md 3 (C02), 9',
    technique='symbolic execution of the real matrix fill with the numerical integration abstracted to uninterpreted integral-atoms (linear forms over atoms, z3 LRA decides equality with the reference for all atom values); Gauss exactness in LRA on symbolic polynomial coefficients; kernel formula by congruence over uninterpreted exp/sqrt; candidates replayed numerically on the untouched package'),
  'C03': dict(
@@ -22,7 +22,7 @@ CHECKS = {
    design='DESIGN.md 3 (C04), 9',
    technique='symbolic execution of the real near-field code on symbolic currents over uninterpreted integral-atoms; z3 (LRA on the monomial relaxation of the bilinear forms) decides equality with the geometry-only reference for all values; candidates replayed numerically on the untouched package'),
  'C05': dict(
-   text='Partial. Fill clause: base model, model moved through --geo-rotate/--geo-translate/--geo-scale (options given against their sort order, frequency divided by the scale) and model with reference-transformed coordinates, all from the real main(), are filled over ONE table of unknown integrals keyed by relative geometry in electrical units; z3 decides for ALL values of the integrals, V, Z_L and currents that options == coordinates, s*Z_moved = Z_base, s*rhs and s*load weight unchanged, and that the far field at the rotated azimuth is the base field times the translation phase; transformations are concrete and adversarial (100 wavelengths, negative coordinates, right and generic angles about three axes, a bare quarter turn of a wire in the plane x = y, scale 0.01/100 and a scale requested in two steps, per-tag). Topology clause: the real Mininec.__init__ runs with a SYMBOLIC scale in [0.01,100], translation and rotation about Z; any branch feasible both ways (end matching, ground detection) is a dependence on placement or size and is replayed. The 5e-4 rounding clause is outside.',
+   text='Partial. Fill clause: base model, model moved through --geo-rotate/--geo-translate/--geo-scale (options given against their sort order, frequency divided by the scale) and model with reference-transformed coordinates, all from the real main(), are filled over ONE table of unknown integrals keyed by relative geometry in electrical units; z3 decides for ALL values of the integrals, V, Z_L and currents that options == coordinates, s*Z_moved = Z_base, s*rhs and s*load weight unchanged, and that the far field at the rotated azimuth is the base field times the translation phase; transformations are concrete and adversarial (100 wavelengths, negative coordinates, right and generic angles about three axes, a bare quarter turn of a wire in the plane x = y, scale 0.01/100 and a scale requested in two steps, per-tag; arcs and helices, incl. a helix of two segments, placed by the options only). Topology clause: the real Mininec.__init__ runs with a SYMBOLIC scale in [0.01,100], translation and rotation about Z; any branch feasible both ways (end matching, ground detection) is a dependence on placement or size and is replayed; per path the solver also decides whether the position of every pulse relative to a symbolic translation is constant (frame with a junction 0.0002 m above height 0 in free space: one genuine defect found and repaired). The 5e-4 rounding clause is outside.',
    design='DESIGN.md 3 (C05), 9',
    technique='symbolic execution of the real main()/matrix fill/rhs/far field for three models over shared uninterpreted integral-atoms (z3 LRA for all atom values, voltages, loads, currents); symbolic execution of Mininec.__init__ on z3-term coordinates with symbolic scale/translation/rotation (path enumeration, exact sqrt by defining equations); candidates replayed on the untouched package'),
  'C06': dict(
@@ -30,22 +30,22 @@ CHECKS = {
    design='DESIGN.md 3 (C06), 9',
    technique='symbolic execution of the real matrix fill / rhs / load / far-field code for two descriptions over shared uninterpreted integral-atoms; z3 (LRA) decides the congruence Z\' = C Z C^T and the rhs / far-field relations for all values; candidates replayed numerically on the untouched package'),
  'C07': dict(
-   text='For all complex source voltages, all factors a, all frequencies and all non-singular system matrices up to 4x4 (larger: the concrete matrix of a catalogue member), homogeneity, superposition and the V/I, Re(VI*)/2 source data are decided by z3 as identities; bounded by the listed geometries and source placements. Also: one model object solved repeatedly with the excitation replaced or extended in between gives the currents of a fresh object, also with the real matrix fill (nothing stubbed) and a load of arbitrary impedance on the model.',
+   text='For all complex source voltages, all factors a, all frequencies and all non-singular system matrices up to 4x4 (larger: the concrete matrix of a catalogue member), homogeneity, superposition and the V/I, Re(VI*)/2 source data are decided by z3 as identities; bounded by the listed geometries and source placements. Also: one model object solved repeatedly with the excitation replaced or extended in between gives the currents of a fresh object, also with the real matrix fill (nothing stubbed) and a load of arbitrary impedance on the model. The -999 dBi cut-off of the table cuts off the same directions for every positive common factor (1e-20..1e20) on concrete generic currents.',
    design='DESIGN.md 3 (C07)'),
  'C09': dict(
-   text='For every wire graph of the bound (all set partitions of the labelled ends of up to 3, thorough 4, wires; with and without ground) and ALL complex pulse currents, z3 decides that each printed junction-end current is the total through that end, that printed inflows sum to zero and that E lines sit exactly at free ends; the report is written twice on the same object for two independent sets of currents (second solution). One known finding (first-end star) is recorded.',
+   text='For every wire graph of the bound (all set partitions of the labelled ends of up to 3, thorough 4, wires; with and without ground) and ALL complex pulse currents, z3 decides that each printed junction-end current is the total through that end, that printed inflows sum to zero and that E lines sit exactly at free ends; the report is written twice on the same object for two independent sets of currents (second solution); a member with a wire end ten junction tolerances from a corner (not joined). One known finding (first-end star) is recorded.',
    design='DESIGN.md 3 (C09)'),
  'C10': dict(
-   text='For all complex pulse currents in a box (three scales in the thorough tier), all positive powers, requested powers and distances and a symbolic azimuth, z3 decides on catalogue geometries (free space and ideal ground) that the far field is the MININEC radiation sum written from pulse geometry (linear real arithmetic), that dBi and V/m tables describe the same field, scale with sqrt(P_req/P)/r, repeat after 360 degrees and rotate rigidly at the zenith. Requests are 2x2 tables; the catalogue includes arrays of exactly vertical wires off the axis.',
+   text='For all complex pulse currents in a box (three scales in the thorough tier), all positive powers, requested powers and distances and a symbolic azimuth, z3 decides on catalogue geometries (free space and ideal ground) that the far field is the MININEC radiation sum written from pulse geometry (linear real arithmetic), that dBi and V/m tables describe the same field, scale with sqrt(P_req/P)/r, repeat after 360 degrees in the azimuth and in the zenith angle and rotate rigidly at the zenith. Requests are 2x2 tables; the catalogue includes arrays of exactly vertical wires off the axis.',
    design='DESIGN.md 3 (C10)'),
  'C11': dict(
-   text='Non-interference: with symbolic permittivity, conductivity, height and boundary the matrix fill (over unknown integrals), loads and right-hand side are the very terms of the ideal-ground model. Limits: the real-ground far-field formula at surface impedance 0 equals the ideal-ground formula for all pulse currents; Medium.impedance satisfies |z|^4 (eps^2 + sigma^2/t^2) = 1 and |z|^2 <= t/sigma for all eps, sigma, f (complex sqrt by its defining equations). Splitting: for ALL cut positions u and all currents a medium split into two with identical constants gives the same field (first/second/third of up to three media, only medium, linear and circular boundary, with and without radials where documented); a further medium with ARBITRARY constants beyond every reflection point is never selected. Each comparison reflection point > boundary forks, one path per assignment of pulses to media; z3 decides per path (LRA). Bounded by catalogue geometries, three directions and three concrete grounds.',
+   text='Non-interference: with symbolic permittivity, conductivity, height and boundary the matrix fill (over unknown integrals), loads and right-hand side are the very terms of the ideal-ground model. Limits: the real-ground far-field formula at surface impedance 0 equals the ideal-ground formula for all pulse currents; Medium.impedance satisfies |z|^4 (eps^2 + sigma^2/t^2) = 1 and |z|^2 <= t/sigma for all eps, sigma, f (complex sqrt by its defining equations). Splitting: for ALL cut positions u (a linear boundary also at 0 and at negative x) and all currents a medium split into two with identical constants gives the same field (first/second/third of up to three media, only medium, linear and circular boundary, with and without radials where documented); a further medium with ARBITRARY constants beyond every reflection point is never selected. Each comparison reflection point > boundary forks, one path per assignment of pulses to media; z3 decides per path (LRA). Bounded by catalogue geometries, three directions and three concrete grounds.',
    design='DESIGN.md 3 (C11), 9'),
  'C12': dict(
    text='Wire end coordinates are solver variables (abstract length, generic position): for every feasible coincidence pattern of the ends of up to 3 (thorough 4) wires with 1..3 segments, with and without ground, count and numbering are compared with the topology formula and the placement of every pulse on its two segments is decided by z3 for all coordinates of the class; the 1/1000 matching tolerance is decided with the exact norm on a two-wire frame.',
    design='DESIGN.md 3 (C12), 2.4'),
  'C17': dict(
-   text='Tags (arbitrary integers or automatic), the per-object address (k,t) and the absolute pulse number are solver variables; on every path (tag order, validity class, addressed row) z3 decides in linear integer arithmetic that sources and loads act on exactly the row of the printed geometry table the user named, that invalid addresses are refused, that all/all,t load each pulse once and that the listings name the pulse; bounded by the listed models. The system matrix receives every attached load exactly once on the diagonal of its pulse with that pulse\'s weight, and a source named as (k,t) produces the excitation vector of the same source named by the absolute number.',
+   text='Tags (arbitrary integers or automatic), the per-object address (k,t) and the absolute pulse number are solver variables; on every path (tag order, validity class, addressed row) z3 decides in linear integer arithmetic that sources and loads act on exactly the row of the printed geometry table the user named, that invalid addresses are refused, that all/all,t load each pulse once and that the listings name the pulse; bounded by the listed models. The system matrix receives every attached load exactly once on the diagonal of its pulse with that pulse\'s weight, and a source named as (k,t) produces the excitation vector of the same source named by the absolute number. Command-line layer: the real main() on two --excitation-pulse options (per-object and absolute form, either order) with k, t, a as symbolic option text.',
    design='DESIGN.md 3 (C17)'),
  'C13': dict(
    text='For all wire lengths, radii and min/max limits satisfying the documented preconditions (segment count concrete: tapers n<=4 quick, <=10 thorough; plain wires, arcs, helices n<=40), z3 decides on every path of the real taper generators that the pieces tile the wire, are positive, respect min/max within the code slack, grow by <=2.1 and mirror; arc/helix ends lie on the documented curve at the documented angles (mixed integer/real for the turn count); rotation matrices are orthogonal with det +1; rotate/translate/scale act as documented. Wire level: the generator is handed the wire\'s own scaled / equivalent radius, end points, limits and tapered end (generator spied, symbolic radius and scale factor). Order and scope of the transformation options: the real main() runs on argument lists whose sort keys, translation vectors and scale factor are solver variables (six option combinations, tagged and untagged); the wires end where some order compatible with the keys puts them (equal keys leave the order open, every option acts), scale last and on the radius.',
@@ -54,17 +54,17 @@ CHECKS = {
    text='One-step cache argument: after a visit at an arbitrary earlier frequency every load impedance (all load kinds, both evaluation orders at a junction of two different wires) equals that of a fresh model, decided by z3 for all frequencies and parameters over uninterpreted Bessel/log/sqrt; frequency/compute histories against a fresh model with an uninterpreted matrix fill, and with the REAL fill over unknown integrals for histories that cross the small-radius limit downwards, upwards and there and back; set iteration order is a solver variable for the option/report writers. Three findings repaired.',
    design='DESIGN.md 3 (C14)'),
  'C15': dict(
-   text='main -> as_cmdline -> main on argument lists whose numeric fields (frequency, tags, complex voltages and loads, R/L/C, Laplace coefficients, conductivities, insulation, media constants, taper limits, transformation keys/vectors/scale) are solver variables; printf tokens fork on the sign so malformed text shows; z3 decides on every path that the written options are accepted and that the re-read model equals the first field by field to the printed precision. Bounded by the listed templates. Five findings repaired.',
+   text='main -> as_cmdline -> main on argument lists whose numeric fields (frequency, tags, complex voltages and loads, R/L/C, Laplace coefficients, conductivities, insulation, media constants, taper limits, transformation keys/vectors/scale) are solver variables; printf tokens fork on the sign so malformed text shows; z3 decides on every path that the written options are accepted and that the re-read model equals the first field by field to the printed precision. Bounded by the listed templates (incl. two rotations and a translation of one object with one and the same sort key). Five findings repaired.',
    design='DESIGN.md 3 (C15)'),
  'C16': dict(
-   text='For all finite IEEE doubles start/increment in the stated ranges and each listed count, the table sizes are decided bit-precisely in QF_FP on the real grid construction and the point values under the standard model of floating-point arithmetic; far-field angle tables likewise. Every table written from one computed pattern (dBi and V/m, in either order, twice) has N_theta x N_phi rows (structural obligation on concrete runs of the regenerated code).',
+   text='For all finite IEEE doubles start/increment in the stated ranges and each listed count, the table sizes are decided bit-precisely in QF_FP on the real grid construction and the point values under the standard model of floating-point arithmetic; far-field angle tables likewise; the points the report walks over (near_field_iter) are compared as well as the stored grid, for boxes and for scan lines n,1,1 / 1,n,1 / 1,1,n. Every table written from one computed pattern (dBi and V/m, in either order, twice) has N_theta x N_phi rows (structural obligation on concrete runs of the regenerated code).',
    design='DESIGN.md 3 (C16)',
    technique='symbolic execution of the real grid/angle code on z3 Float64 terms (counts, bit-precise) and on reals with per-operation rounding-error variables (values); z3 decides per count'),
  'C18': dict(
-   text='The real BASIC-input writers run on symbolic voltages, loads, Laplace coefficients, frequency and media constants; a reference reader (validated on all 48 golden .mini files) consumes the answers in MININEC-3 prompt order; z3 decides for all values that frequency, media, sources (entered as complex voltage or as magnitude of either sign and phase; magnitude and phase in degrees rebuild the voltage the solver uses), loads and Laplace units (versions 9/12/13) are those of the model; wires rebuilt through the public API give the same pulses. Distributed (skin-effect, insulation) loads on a tapered wire: every pulse is written with its own value.',
+   text='The real BASIC-input writers run on symbolic voltages, loads, Laplace coefficients, frequency and media constants; a reference reader (validated on all 48 golden .mini files) consumes the answers in MININEC-3 prompt order; z3 decides for all values that frequency, media, sources (entered as complex voltage or as magnitude of either sign and phase; magnitude and phase in degrees rebuild the voltage the solver uses), loads and Laplace units (versions 9/12/13) are those of the model; wires rebuilt through the public API and by the BASIC rule (ends joined only when read as exactly equal, grounded only when Z is read as exactly 0; case with a grounded end whose height is a rounding residue) give the same pulses. Distributed (skin-effect, insulation) loads on a tapered wire: every pulse is written with its own value.',
    design='DESIGN.md 3 (C18)'),
  'C19': dict(
-   text='util.format_float runs unstubbed on a symbolic real: for every real with 1e-30<=|f|<=1e12 (and 0), both modes and signs, z3 decides per path (decade, digit count, format) in mixed integer/real arithmetic that the text read back is within 5e-6 relative / 1e-6 absolute, at most 9 characters with a fraction, never -0. The report writers run on symbolic currents/voltages/fields: every printed number is the value its row is about and the report is structurally complete. Two open findings (V/m table precision). Load lines of distributed loads on unequal segments and junctions carry the impedance of their own pulse. Junction rows carry the current of their two-wire junction pulse at both wire ends.',
+   text='util.format_float runs unstubbed on a symbolic real: for every real with 1e-30<=|f|<=1e12 (and 0), both modes and signs, z3 decides per path (decade, digit count, format) in mixed integer/real arithmetic that the text read back is within 5e-6 relative / 1e-6 absolute, at most 9 characters with a fraction, never -0. The report writers run on symbolic currents/voltages/fields: every printed number is the value its row is about and the report is structurally complete. Two open findings (V/m table precision). Load lines of distributed loads on unequal segments and junctions carry the impedance of their own pulse. Junction rows carry the current of their two-wire junction pulse at both wire ends. Every writer has been used once before on the same object for another solution.',
    design='DESIGN.md 3 (C19)'),
  'C20': dict(
    text='main() is executed symbolically up to the constructed model on argument lists whose numeric fields are solver variables over wide ranges (divisions fork on zero): on every path it ends in a model, a one-line diagnostic with 23, or the usage error for ALL values of that path. One solver-generated representative per path and the special classes nan/inf/0/negative/1e-300/1e300 of every field are run through the complete real program and classified by the trichotomy (this second part is path-guided generation, not a for-all verdict). 14 defects repaired, 19 recorded. Templates include two transformations with symbolic sort keys (equal-key path).',
@@ -72,7 +72,7 @@ CHECKS = {
    technique='bounded symbolic execution of main() on token argument lists (z3 path enumeration, zero-divisor forks) + solver-generated representative per path replayed on the complete real program'),
  'C08': dict(
    text='For all load values, frequencies and (for the system-level clauses) all non-singular system matrices within the stated sizes, '
-        'z3 finds no input for which a load deviates from the series element it describes; bounded by catalogue geometries and matrix size. The load is named by absolute pulse number or as pulse p of the object with tag t (tags with a gap); at matrix level: the load changes the diagonal entry of the feed pulse and no other. Distributed loads (skin effect by conductivity / resistivity, insulation) on a junction of two different wires: the load of a pulse is the sum over its halves of half length x per-length impedance of THAT half\'s wire, for all f, sigma, eps_r, every subset of loaded wires and both evaluation orders (Bessel/log/sqrt uninterpreted).',
+        'z3 finds no input for which a load deviates from the series element it describes; bounded by catalogue geometries and matrix size. The load is named by absolute pulse number or as pulse p of the object with tag t (tags with a gap); at matrix level: the load changes the diagonal entry of the feed pulse and no other, also on the second request of the same object with the real matrix fill. Distributed loads (skin effect by conductivity / resistivity, insulation) on a junction of two different wires: the load of a pulse is the sum over its halves of half length x per-length impedance of THAT half\'s wire, for all f, sigma, eps_r, every subset of loaded wires and both evaluation orders (Bessel/log/sqrt uninterpreted).',
    design='DESIGN.md 3 (C08)'),
 }
 
